@@ -3,12 +3,17 @@ the statements of properties C01-C03 (not against miros' implementation)."""
 from worlds.chartgen import Spec
 
 
+class FaultReached(Exception):
+  """the injected malformation (C24) is reached by this call"""
+
+
 class RefHSM(object):
 
-  def __init__(self, spec):
+  def __init__(self, spec, fault=None):
     self.sp = spec if isinstance(spec, Spec) else Spec(spec)
     self.cur = None
     self.fx_fired = {}
+    self.fault = fault     # {'kind': 'init'|'none-status', 'state': F, 'signal': sig}
 
   # every method returns (calls, actions, fx) where
   #   calls   = [(signal kind, state)] for ENTRY/EXIT/INIT invocations the processor must make
@@ -41,6 +46,8 @@ class RefHSM(object):
     while True:
       st = sp.states[t]
       calls.append(('INIT', t))
+      if self.fault and self.fault['kind'] == 'init' and self.fault['state'] == t:
+        raise FaultReached(t)
       if st['init'] is None:
         return t
       actions.append(('init', t))
@@ -74,6 +81,8 @@ class RefHSM(object):
     kind = 'ignored'
     while n is not None:
       st = sp.states[n]
+      if self.fault and self.fault['kind'] == 'none-status' and self.fault['state'] == n and self.fault['signal'] == sig:
+        raise FaultReached(n)
       r = st['react'].get(sig)
       if r is None:
         n = sp.parent[n]
